@@ -23,14 +23,113 @@ import filelock
 import toasty.pyramid as tp
 from toasty.image import Image, ImageMode
 from toasty.pyramid import Pos, PyramidIO
-from vlib import bmc, chx, mpmodel
+from vlib import bmc, chx, mpmodel, symx
 from vlib.core import HarnessError
 
 HERE = os.path.dirname(__file__)
 
 
-def extract_script(fmt_arg=None, default_format="npy"):
-    """Run the real update_image once; record the order of acquire / read / body / write / release and the lock path."""
+class _EnvPath:
+    """os.path for toasty.pyramid during the extraction: the lock file's existence and modification time are
+    SYMBOLIC (environment), everything else is the real os.path."""
+
+    def __init__(self, log):
+        self._log = log
+
+    def __getattr__(self, name):
+        return getattr(os.path, name)
+
+    def _exists(self, p):
+        c = symx.ctx()
+        b = symx.SymBool(z3.Bool("exists[%s]" % p))
+        r = bool(b)
+        self._log.append(("probe", p, r))
+        return r
+
+    def exists(self, p):
+        if str(p).endswith(".lock"):
+            return self._exists(p)
+        return os.path.exists(p)
+
+    isfile = exists
+
+    def _time(self, p):
+        if not str(p).endswith(".lock"):
+            return os.path.getmtime(p)
+        if not self._exists(p):
+            raise FileNotFoundError(2, "No such file or directory", p)
+        t = z3.Real("mtime[%s]" % p)
+        symx.ctx().assume(t >= 0)
+        return symx.SymReal(t)
+
+    getmtime = getctime = getatime = _time
+
+
+class _EnvOS:
+    def __init__(self, log):
+        self._log = log
+        self.path = _EnvPath(log)
+
+    def __getattr__(self, name):
+        return getattr(os, name)
+
+    def makedirs(self, *a, **k):
+        return None
+
+    def unlink(self, p, *a, **k):
+        self._log.append(("unlink", p))
+
+    remove = unlink
+
+    def stat(self, p, *a, **k):
+        t = self.path._time(p)
+        return type("St", (), {"st_mtime": t, "st_ctime": t, "st_atime": t, "st_size": 0})()
+
+
+class _EnvClock:
+    """time module for toasty.pyramid during the extraction: the clock is an arbitrary non-negative real."""
+
+    def __init__(self):
+        self.n = 0
+
+    def __getattr__(self, name):
+        return getattr(time, name)
+
+    def _now(self):
+        self.n += 1
+        t = z3.Real("clock%d" % self.n)
+        symx.ctx().assume(t >= 0)
+        return symx.SymReal(t)
+
+    time = monotonic = perf_counter = _now
+
+    def sleep(self, *a):
+        return None
+
+
+def extract_scripts(fmt_arg=None, default_format="npy"):
+    """All step scripts of the real update_image over every answer of the environment it consults (lock-file
+    existence / age, clock): explored with symx; each alternative is a list of ops
+    (probe, path, exists) | (unlink, path) | acquire | read | body | write | release."""
+    alts = []
+    seen = set()
+
+    def h(ctx):
+        return extract_script(fmt_arg, default_format, env=True)
+
+    for ctx, out in symx.explore(h, stats={}, max_paths=64, timeout_ms=20000):
+        if not isinstance(out, list):
+            raise HarnessError("update_image under a symbolic environment ended with %r" % (out,))
+        key = tuple((op[0],) + tuple(op[1:]) if op[0] != "body" else ("body",) for op in out)
+        if key not in seen:
+            seen.add(key)
+            alts.append(out)
+    return alts
+
+
+def extract_script(fmt_arg=None, default_format="npy", env=False):
+    """Run the real update_image once; record the order of acquire / read / body / write / release and the lock path.
+    env=True (under symx.explore): toasty.pyramid's os / time are environment stubs with symbolic answers."""
     log = []
 
     class RecLock:
@@ -55,67 +154,117 @@ def extract_script(fmt_arg=None, default_format="npy"):
 
     saved = filelock.SoftFileLock
     filelock.SoftFileLock = RecLock
-    saved_mk = tp.os.makedirs
+    saved_os = tp.os
+    had_time = hasattr(tp, "time")
+    saved_time = getattr(tp, "time", None)
+    saved_mk = os.makedirs
     try:
-        tp.os.makedirs = lambda *a, **k: None
+        if env:
+            tp.os = _EnvOS(log)
+            if had_time:
+                tp.time = _EnvClock()
+        else:
+            os.makedirs = lambda *a, **k: None
         pio = RecPio("/scratch-not-created", default_format=default_format)
         with pio.update_image(Pos(2, 1, 3), masked_mode=ImageMode.F32, default="masked", format=fmt_arg) as img:
             log.append(("body", img))
     finally:
         filelock.SoftFileLock = saved
-        tp.os.makedirs = saved_mk
+        tp.os = saved_os
+        os.makedirs = saved_mk
+        if had_time:
+            tp.time = saved_time
     return log
 
 
 def updater_ts(scripts, split_write=True):
-    """scripts[u] = list of (op, resource-id). One tile file; locks identified by path."""
+    """scripts[u] = list of ALTERNATIVE step lists of updater u (one per answer of the environment), each a list of
+    (op, resource[, expected]).  One tile file; locks identified by path.  Which alternative an updater follows is a
+    solver variable, constrained by its 'probe' steps: the lock file exists iff the lock is held at that moment."""
     ts = bmc.TS("update")
     U = len(scripts)
-    locks = sorted({r for sc in scripts for (op, r) in sc if op in ("acquire", "release")})
-    files = sorted({r for sc in scripts for (op, r) in sc if op in ("read", "write")})
+    scripts = [sc if sc and isinstance(sc[0], list) else [sc] for sc in scripts]
+    locks = sorted({op[1] for alts in scripts for sc in alts for op in sc if op[0] in ("acquire", "release")})
+    files = sorted({op[1] for alts in scripts for sc in alts for op in sc if op[0] in ("read", "write")})
     for li in range(len(locks)):
         ts.var("lock%d" % li, 3, 0)
     for fi in range(len(files)):
         ts.var("file%d" % fi, U, 0)
         ts.var("torn%d" % fi, 1, 0)
     ts.var("err_torn", 1, 0)
-    for u, sc in enumerate(scripts):
-        ts.var("pc%d" % u, 4, 0)
+    ts.ends = []
+    ts.alt = []
+    ts.probe_guards = []          # (u, alt index, pc, guard(s)) of every environment probe
+    for u, alts in enumerate(scripts):
+        ts.var("pc%d" % u, 5, 0)
         ts.var("loc%d" % u, U, 0)
-        pc = 0
-        for (op, r) in sc:
-            at = (lambda u, pc: (lambda s: s["pc%d" % u] == pc))(u, pc)
-            if op == "acquire":
-                li = locks.index(r)
-                ts.t("acquire u%d" % u, "u%d" % u, (lambda u, pc, li: (lambda s: z3.And(s["pc%d" % u] == pc, s["lock%d" % li] == 0)))(u, pc, li),
-                     (lambda u, pc, li: (lambda s: {"pc%d" % u: bmc.bv(pc + 1, 4), "lock%d" % li: bmc.bv(u + 1, 3)}))(u, pc, li))
-            elif op == "release":
-                li = locks.index(r)
-                ts.t("release u%d" % u, "u%d" % u, at, (lambda u, pc, li: (lambda s: {"pc%d" % u: bmc.bv(pc + 1, 4), "lock%d" % li: bmc.bv(0, 3)}))(u, pc, li))
-            elif op == "read":
-                fi = files.index(r)
-                ts.t("read u%d" % u, "u%d" % u, at,
-                     (lambda u, pc, fi: (lambda s: {"pc%d" % u: bmc.bv(pc + 1, 4), "loc%d" % u: s["file%d" % fi],
-                                                    "err_torn": z3.If(s["torn%d" % fi] == 1, bmc.bv(1, 1), s["err_torn"])}))(u, pc, fi))
-            elif op == "body":
-                ts.t("modify u%d" % u, "u%d" % u, at, (lambda u, pc: (lambda s: {"pc%d" % u: bmc.bv(pc + 1, 4), "loc%d" % u: s["loc%d" % u] | bmc.bv(1 << u, U)}))(u, pc))
-            elif op == "write":
-                fi = files.index(r)
-                ts.t("write_begin u%d" % u, "u%d" % u, at, (lambda u, pc, fi: (lambda s: {"pc%d" % u: bmc.bv(pc + 1, 4), "torn%d" % fi: bmc.bv(1, 1)}))(u, pc, fi))
+        alt = z3.BitVec("alt%d" % u, 3)
+        ts.param(alt, z3.ULT(alt, len(alts)))
+        ts.alt.append(alt)
+        ends = []
+        for a, sc in enumerate(alts):
+            pc = 0
+            for op in sc:
+                kind, r = op[0], op[1] if len(op) > 1 else None
+                at = (lambda u, pc, a, alt: (lambda s: z3.And(s["pc%d" % u] == pc, alt == a)))(u, pc, a, alt)
+                lab = "%%s u%d" % u
+                if kind == "acquire":
+                    li = locks.index(r)
+                    ts.t(lab % "acquire", "u%d" % u, (lambda at, li: (lambda s: z3.And(at(s), s["lock%d" % li] == 0)))(at, li),
+                         (lambda u, pc, li: (lambda s: {"pc%d" % u: bmc.bv(pc + 1, 5), "lock%d" % li: bmc.bv(u + 1, 3)}))(u, pc, li))
+                elif kind == "release":
+                    li = locks.index(r)
+                    # releasing removes the marker file if it is still this updater's; a marker re-created by somebody else is removed too (SoftFileLock unlinks the path)
+                    ts.t(lab % "release", "u%d" % u, at, (lambda u, pc, li: (lambda s: {"pc%d" % u: bmc.bv(pc + 1, 5), "lock%d" % li: bmc.bv(0, 3)}))(u, pc, li))
+                elif kind == "probe":
+                    if r not in locks:
+                        raise HarnessError("update_image probes %r, which is not a lock path of the model" % (r,))
+                    li = locks.index(r)
+                    want = bool(op[2])
+                    ts.probe_guards.append((u, a, pc, (lambda li, want: (lambda s: (s["lock%d" % li] != 0) if want else (s["lock%d" % li] == 0)))(li, want)))
+                    ts.t(lab % "probe", "u%d" % u, (lambda at, li, want: (lambda s: z3.And(at(s), (s["lock%d" % li] != 0) if want else (s["lock%d" % li] == 0))))(at, li, want),
+                         (lambda u, pc: (lambda s: {"pc%d" % u: bmc.bv(pc + 1, 5)}))(u, pc))
+                elif kind == "unlink":
+                    if r in locks:
+                        li = locks.index(r)
+                        ts.t(lab % "unlink-lock", "u%d" % u, at, (lambda u, pc, li: (lambda s: {"pc%d" % u: bmc.bv(pc + 1, 5), "lock%d" % li: bmc.bv(0, 3)}))(u, pc, li))
+                    elif r in files:
+                        fi = files.index(r)
+                        ts.t(lab % "unlink-tile", "u%d" % u, at, (lambda u, pc, fi: (lambda s: {"pc%d" % u: bmc.bv(pc + 1, 5), "file%d" % fi: bmc.bv(0, U)}))(u, pc, fi))
+                    else:
+                        raise HarnessError("update_image unlinks %r, which the model does not know" % (r,))
+                elif kind == "read":
+                    fi = files.index(r)
+                    ts.t(lab % "read", "u%d" % u, at,
+                         (lambda u, pc, fi: (lambda s: {"pc%d" % u: bmc.bv(pc + 1, 5), "loc%d" % u: s["file%d" % fi],
+                                                        "err_torn": z3.If(s["torn%d" % fi] == 1, bmc.bv(1, 1), s["err_torn"])}))(u, pc, fi))
+                elif kind == "body":
+                    ts.t(lab % "modify", "u%d" % u, at, (lambda u, pc: (lambda s: {"pc%d" % u: bmc.bv(pc + 1, 5), "loc%d" % u: s["loc%d" % u] | bmc.bv(1 << u, U)}))(u, pc))
+                elif kind == "write":
+                    fi = files.index(r)
+                    ts.t(lab % "write_begin", "u%d" % u, at, (lambda u, pc, fi: (lambda s: {"pc%d" % u: bmc.bv(pc + 1, 5), "torn%d" % fi: bmc.bv(1, 1)}))(u, pc, fi))
+                    pc += 1
+                    at2 = (lambda u, pc, a, alt: (lambda s: z3.And(s["pc%d" % u] == pc, alt == a)))(u, pc, a, alt)
+                    ts.t(lab % "write_end", "u%d" % u, at2,
+                         (lambda u, pc, fi: (lambda s: {"pc%d" % u: bmc.bv(pc + 1, 5), "torn%d" % fi: bmc.bv(0, 1), "file%d" % fi: s["loc%d" % u]}))(u, pc, fi))
+                else:
+                    raise HarnessError("unknown step %r in the extracted update_image script" % (op,))
                 pc += 1
-                at2 = (lambda u, pc: (lambda s: s["pc%d" % u] == pc))(u, pc)
-                ts.t("write_end u%d" % u, "u%d" % u, at2,
-                     (lambda u, pc, fi: (lambda s: {"pc%d" % u: bmc.bv(pc + 1, 4), "torn%d" % fi: bmc.bv(0, 1), "file%d" % fi: s["loc%d" % u]}))(u, pc, fi))
-            pc += 1
-        sc_len = pc
-        ts.__dict__.setdefault("ends", []).append(sc_len)
+            ends.append(pc)
+        ts.ends.append(ends)
     ts.U, ts.files, ts.locks = U, files, locks
-    ts.max_steps = sum(ts.ends) + 1
+    ts.max_steps = sum(max(e) for e in ts.ends) + 1
+    ts.done = lambda s, u: z3.Or(*[z3.And(ts.alt[u] == a, s["pc%d" % u] == e) for a, e in enumerate(ts.ends[u])])
+    # an updater waiting at a probe whose expected answer is not the state of the world is an environment answer that
+    # cannot be given, not a deadlock
+    ts.bad_answer = lambda s: z3.Or(*[z3.And(ts.alt[u] == a, s["pc%d" % u] == pc, z3.Not(g(s))) for (u, a, pc, g) in ts.probe_guards]) if ts.probe_guards else z3.BoolVal(False)
     return ts
 
 
-def replay(trace, n_updaters, fmt_args):
-    """Real update_image on real npy files in a scratch directory, threads driven by the solver's schedule."""
+def replay(trace, n_updaters, fmt_args, old_clock=()):
+    """Real update_image on real npy files in a scratch directory, threads driven by the solver's schedule.  The soft
+    lock is a real marker file; for the updaters named in `old_clock` the clock toasty.pyramid sees is far ahead (every
+    existing file looks old to them) — the environment answers the solver chose."""
     S = mpmodel.Sched()
     d = tempfile.mkdtemp(prefix="verif-c10-")
     held = {}
@@ -126,14 +275,67 @@ def replay(trace, n_updaters, fmt_args):
             self.path = path
 
         def __enter__(self):
-            S.op("acquire", lambda: self.path not in held)
+            S.op("acquire", lambda: not os.path.exists(self.path))
+            with open(self.path, "w") as f:
+                f.write(S.me())
             held[self.path] = S.me()
             return self
 
         def __exit__(self, *a):
             S.op("release")
             held.pop(self.path, None)
+            try:
+                os.unlink(self.path)
+            except OSError:
+                pass
             return False
+
+    class ReplayPath:
+        def __getattr__(self, name):
+            return getattr(os.path, name)
+
+        def _probe(self, fn, p):
+            if str(p).endswith(".lock"):
+                S.op("probe")
+            return fn(p)
+
+        def exists(self, p):
+            return self._probe(os.path.exists, p)
+
+        isfile = exists
+
+        def getmtime(self, p):
+            return self._probe(os.path.getmtime, p)
+
+        getctime = getatime = getmtime
+
+    class ReplayOS:
+        path = ReplayPath()
+
+        def __getattr__(self, name):
+            return getattr(os, name)
+
+        def unlink(self, p, *a, **k):
+            if str(p).endswith(".lock"):
+                S.op("unlink-lock")
+                held.pop(p, None)
+            return os.unlink(p, *a, **k)
+
+        remove = unlink
+
+        def stat(self, p, *a, **k):
+            if str(p).endswith(".lock"):
+                S.op("probe")
+            return os.stat(p, *a, **k)
+
+    class ReplayClock:
+        def __getattr__(self, name):
+            return getattr(time, name)
+
+        def time(self):
+            return time.time() + (1e9 if S.me() in old_clock else 0.0)
+
+        monotonic = perf_counter = time
 
     class Pio(PyramidIO):
         def read_image(self, pos, default="none", masked_mode=None, format=None):
@@ -151,6 +353,12 @@ def replay(trace, n_updaters, fmt_args):
 
     saved = filelock.SoftFileLock
     filelock.SoftFileLock = SchedLock
+    saved_os = tp.os
+    had_time = hasattr(tp, "time")
+    saved_time = getattr(tp, "time", None)
+    tp.os = ReplayOS()
+    if had_time:
+        tp.time = ReplayClock()
     pos = Pos(1, 1, 0)
     errors = []
     try:
@@ -184,6 +392,9 @@ def replay(trace, n_updaters, fmt_args):
         present = [bool(final is not None and final[u, 0] == u + 1.0) for u in range(n_updaters)]
     finally:
         filelock.SoftFileLock = saved
+        tp.os = saved_os
+        if had_time:
+            tp.time = saved_time
         shutil.rmtree(d, ignore_errors=True)
     return dict(drive=out, present=present, torn_reads=monitor["torn_reads"], errors=errors, locks_left=dict(held))
 
@@ -191,38 +402,51 @@ def replay(trace, n_updaters, fmt_args):
 def check_updaters(run, n):
     name = "update[N=%d]" % n
     scripts = []
-    raw = []
     for u in range(n):
-        log = extract_script(fmt_arg=None if u % 2 == 0 else "npy")
-        raw.append(log)
-        scripts.append([(op, r if op != "body" else None) for (op, r) in log])
+        alts = extract_scripts(fmt_arg=None if u % 2 == 0 else "npy")
+        scripts.append([[tuple(op) if op[0] != "body" else ("body", None) for op in log] for log in alts])
     ts = updater_ts(scripts)
     U = bmc.Unrolled(ts, ts.max_steps)
-    run.extra.setdefault("models", {})[name] = dict(script=[[op for op, _r in sc] for sc in scripts][0], lock_paths=sorted(ts.locks), files=sorted(ts.files), steps=ts.max_steps)
+    run.extra.setdefault("models", {})[name] = dict(alternatives_by_environment=[[op[0] + (":%s" % op[2] if op[0] == "probe" else "") for op in sc] for sc in scripts[0]],
+                                                      lock_paths=sorted(ts.locks), files=sorted(ts.files), steps=ts.max_steps)
     full = (1 << n) - 1
     fin = U.final()
     fi0 = 0
+    alldone = z3.And(*[ts.done(fin, u) for u in range(n)])
     queries = [
-        ("no-lost-update", z3.And(*[fin["pc%d" % u] == ts.ends[u] for u in range(n)], fin["file%d" % fi0] != full), "an update is lost: the final tile misses a contribution"),
+        ("no-lost-update", z3.And(alldone, fin["file%d" % fi0] != full), "an update is lost: the final tile misses a contribution"),
         ("no-torn-read", U.exists(lambda s: s["err_torn"] == 1), "an updater reads the tile while another one is writing it"),
-        ("terminates", z3.Or(z3.Not(z3.And(*[fin["pc%d" % u] == ts.ends[u] for u in range(n)])), U.enabled(fin)), "some updater never finishes"),
+        ("terminates", z3.And(z3.Not(alldone), z3.Not(U.enabled(fin)), z3.Not(ts.bad_answer(fin))), "some updater never finishes"),
     ]
+
+    def old_clock_of(m):
+        out = []
+        for u in range(n):
+            a = m.eval(ts.alt[u], model_completion=True).as_long()
+            if any(op[0] == "unlink" for op in scripts[u][a]):
+                out.append("u%d" % u)
+        return tuple(out)
     for qn, bad, what in queries:
         r, m, dt = U.check(bad)
         nm = "%s.%s" % (name, qn)
         if r == "unsat":
-            run.ob(nm, "unsat", "E3:bmc", "all interleavings of %d updaters; script %s" % (n, [op for op, _ in scripts[0]]), queries=1, solver_s=dt)
+            run.ob(nm, "unsat", "E3:bmc", "all interleavings of %d updaters x every environment answer; %d script alternative(s), first: %s" % (n, len(scripts[0]), [op[0] for op in scripts[0][0]]), queries=1, solver_s=dt)
         elif r == "sat":
             trace = U.trace(m)
-            obs = replay(trace, n, [None if u % 2 == 0 else "npy" for u in range(n)])
+            oc = old_clock_of(m)
+            obs = replay(trace, n, [None if u % 2 == 0 else "npy" for u in range(n)], oc)
             lost = not all(obs["present"])
             torn = obs["torn_reads"] > 0
             stuck = obs["drive"][0] == "stuck"
-            if (qn == "no-lost-update" and lost) or (qn == "no-torn-read" and torn) or (qn == "terminates" and (stuck or lost)) or lost:
+            # the model's write takes two steps with the content appearing at the second, the real write_image runs
+            # between the two rendezvous: a schedule that loses an update through a read in the middle of a write shows
+            # on the real code as that torn read
+            if lost or torn or (qn == "terminates" and stuck):
                 text = ("# interleaving found by the solver, replayed on the real PyramidIO.update_image with real files\n"
-                        "import sys\nsys.path.insert(0, %r)\nimport props.C10 as P\nobs = P.replay(%r, %d, %r)\nprint(obs)\n"
-                        "sys.exit(1 if (not all(obs['present']) or obs['torn_reads']) else 0)\n") % (str(__import__("vlib.core").core.VERIF), trace, n, [None if u % 2 == 0 else "npy" for u in range(n)])
-                run.violation(nm, "update_image:%s" % qn, "concurrent update_image: %s; real run under the solver's interleaving: contributions present=%s torn reads=%d" % (what, obs["present"], obs["torn_reads"]),
+                        "import sys\nsys.path.insert(0, %r)\nimport props.C10 as P\nobs = P.replay(%r, %d, %r, %r)\nprint(obs)\n"
+                        "sys.exit(1 if (not all(obs['present']) or obs['torn_reads']) else 0)\n") % (str(__import__("vlib.core").core.VERIF), trace, n, [None if u % 2 == 0 else "npy" for u in range(n)], oc)
+                run.violation(nm, "update_image:%s" % qn, "concurrent update_image: %s; real run under the solver's interleaving%s: contributions present=%s torn reads=%d" % (
+                    what, (" (clock far ahead for %s, so an existing lock file looks old)" % ", ".join(oc)) if oc else "", obs["present"], obs["torn_reads"]),
                               text, "E3:bmc+detsched", queries=1, solver_s=dt)
             else:
                 run.error(nm, "solver interleaving did not reproduce on the real code: %s" % (obs,))
@@ -230,19 +454,19 @@ def check_updaters(run, n):
             run.ob(nm, "inconclusive", "E3:bmc", "solver answered %s" % r, queries=1, solver_s=dt)
     # vacuity twins: (a) a completing run exists and the real code completes with all contributions under it;
     # (b) the SAME model without the lock does lose an update (the assertion can fail)
-    r, m, dt = U.check(z3.And(*[fin["pc%d" % u] == ts.ends[u] for u in range(n)]))
+    r, m, dt = U.check(alldone)
     if r == "sat":
-        obs = replay(U.trace(m), n, [None if u % 2 == 0 else "npy" for u in range(n)])
+        obs = replay(U.trace(m), n, [None if u % 2 == 0 else "npy" for u in range(n)], old_clock_of(m))
         run.replays += 1
         if all(obs["present"]) and not obs["errors"]:
             run.ob("%s.twin" % name, "twin-sat", "E3:bmc+detsched", "a completing interleaving exists; the REAL update_image keeps all %d contributions under it" % n, queries=1, solver_s=dt)
         else:
             run.error("%s.twin" % name, "real run under a completing model interleaving lost a contribution: %s" % (obs,))
-    nolock = [[(op, r) for (op, r) in sc if op not in ("acquire", "release")] for sc in scripts]
+    nolock = [[[op for op in sc if op[0] not in ("acquire", "release", "probe", "unlink")] for sc in alts][:1] for alts in scripts]
     ts2 = updater_ts(nolock)
     U2 = bmc.Unrolled(ts2, ts2.max_steps)
     f2 = U2.final()
-    r2, m2, dt2 = U2.check(z3.And(*[f2["pc%d" % u] == ts2.ends[u] for u in range(n)]), f2["file0"] != full)
+    r2, m2, dt2 = U2.check(z3.And(*[ts2.done(f2, u) for u in range(n)]), f2["file0"] != full)
     run.ob("%s.twin-without-lock" % name, "twin-sat" if r2 == "sat" else "inconclusive", "E3:bmc", "the same model with the lock steps removed loses an update: %s" % r2, queries=1, solver_s=dt2)
 
 
